@@ -31,9 +31,9 @@ def cases(ctx):
                "aseed": rng.getrandbits(32)}
     for fcfg in ipref.file_configs(rng, ctx.per_shard(ctx.pick(40, 3000)), quick=ctx.quick):
         yield {"kind": "file", "fcfg": fcfg, "lseed": rng.getrandbits(32), "nlines": rng.randint(3, 40)}
-    for fcfg in ipref.file_configs(rng, ctx.per_shard(ctx.pick(4, 240)), quick=ctx.quick):
+    for i, fcfg in enumerate(ipref.file_configs(rng, ctx.per_shard(ctx.pick(8, 240)), quick=ctx.quick)):
         yield {"kind": "cli", "fcfg": fcfg, "lseed": rng.getrandbits(32), "nlines": rng.randint(3, 25),
-               "hs": [rng.randint(1, 4000), rng.randint(1, 4000)]}
+               "hs": [rng.randint(1, 4000), rng.randint(1, 4000)], "private": i % 2 == 1}
 
 
 def check_case(ctx, case):
@@ -209,7 +209,7 @@ def _cli(ctx, case):
     if fcfg["salt"].startswith("-") or fcfg["salt"] == "":
         fcfg["salt"] = "s" + fcfg["salt"]
     rng = random.Random(case["lseed"])
-    private = rng.random() < 0.4
+    private = case.get("private", rng.random() < 0.4)
     if private:
         fcfg["pa"] = list(fcfg.get("pa") or []) + list(ipgen.RFC1918)
     lns = case.get("lines") or gen_ip_lines(rng, fcfg, case["nlines"], near=False)
